@@ -33,7 +33,7 @@ def search(res, tier, seed, deep=False):
             mult = (name, var, over) in MULT
             modes = ["none", "days"] + (["years"] if name in ("CDFt", "QuantileDeltaMapping") else [])
             if tier == "quick":
-                modes = [modes[(rnd + len(name)) % len(modes)]] + (["none"] if name in ("ScaledDistributionMapping", "ISIMIP") else [])
+                modes = [modes[(rnd + len(name)) % len(modes)]] + (["none"] if name in ("ScaledDistributionMapping", "ISIMIP") else []) + (["years"] if len(modes) == 3 else [])
             for mode in dict.fromkeys(modes):
                 try:
                     d = R.build(name, var, mode, r, **over)
@@ -41,6 +41,8 @@ def search(res, tier, seed, deep=False):
                     continue
                 rs = np.random.RandomState(r.randint(0, 10 ** 6))
                 nO, nH, nF = r.randint(730, 800), r.randint(730, 800), r.randint(730, 1100)
+                if mode == "years":      # whole numbers of years, so that the period is often a multiple of the year step
+                    nF = r.choice([731, 1096, 1461, 1827, 2192])
                 kind = "pr" if var == "pr" else "tas"
                 obs, hist, fut = R.series(rs, nO, kind), R.series(rs, nH, kind, 1.5 if kind == "tas" else 0.0, 1.2), R.series(rs, nF, kind, 3.0 if kind == "tas" else 0.0, 1.1)
                 if name == "QuantileMapping" and mult:
